@@ -43,7 +43,17 @@
 #define VF_INI_SMALLTABLE	((VF_INI_MAXL + 1) * sizeof(ini_line_p)) /* harness-built table */
 #ifndef VF_REPLAY
 size_t	vf_ini_req[256];
+#ifndef VF_INI_NO_REQ
 #define VF_INI_REQ(p)		vf_ini_req[__CPROVER_POINTER_OBJECT(p) & 255]
+#define VF_INI_REQ_SET(p, n)	(VF_INI_REQ(p) = (n))
+#else
+/* cheaper model for the heaviest jobs: the capacity of a record is the (constant) size of its
+ * heap object instead of the requested size (reads of a 256-entry ghost array at symbolic
+ * indices dominate the formula of ini_val_set: 19 M variables); what is lost - a recorded
+ * capacity larger than the request - is exactly what the ini.alloc job checks */
+#define VF_INI_REQ(p)		__CPROVER_OBJECT_SIZE(p)
+#define VF_INI_REQ_SET(p, n)	((void)0)
+#endif
 #define VF_INI_LINE_CAP(l)	(VF_INI_REQ(l) - sizeof(ini_line_t))
 #endif
 
@@ -581,7 +591,7 @@ vf_ini_mk_line(uint8_t kind, size_t nsz, size_t vsz, size_t pad, size_t das,
 	/* requested capacity: data_size + pad; data_allocated_size: anything up to it */
 	VF_ASSUME(das <= dsz + pad);
 #ifndef VF_REPLAY
-	VF_INI_REQ(l) = sizeof(ini_line_t) + dsz + pad;
+	VF_INI_REQ_SET(l, sizeof(ini_line_t) + dsz + pad);
 #endif
 	l->data = (uint8_t *)(l + 1);
 	l->data_size = dsz;
@@ -611,6 +621,22 @@ vf_ini_mk_line(uint8_t kind, size_t nsz, size_t vsz, size_t pad, size_t das,
 	return (l);
 }
 
+/* jobs may fix the SHAPE of the store (line kinds, count, table size) to concrete values:
+ * -DVF_INI_KIND_l0=3 -DVF_INI_KIND_l1=4 -DVF_INI_COUNT=2 -DVF_INI_ALLOCATED=3; sizes,
+ * capacities and contents stay symbolic */
+#ifndef VF_INI_KIND_l0
+#define VF_INI_KIND_l0	l0_kind
+#endif
+#ifndef VF_INI_KIND_l1
+#define VF_INI_KIND_l1	l1_kind
+#endif
+#ifndef VF_INI_KIND_l2
+#define VF_INI_KIND_l2	l2_kind
+#endif
+#ifndef VF_INI_KIND_l3
+#define VF_INI_KIND_l3	l3_kind
+#endif
+
 #ifndef VF_REPLAY
 #define VF_INI_SYM_LINE(dst, tag)						\
 	do {									\
@@ -619,7 +645,7 @@ vf_ini_mk_line(uint8_t kind, size_t nsz, size_t vsz, size_t pad, size_t das,
 		VF_NONDET(uint8_t, tag##_vsz);					\
 		VF_NONDET(uint8_t, tag##_pad);					\
 		VF_NONDET(uint8_t, tag##_das);					\
-		(dst) = vf_ini_mk_line(tag##_kind, tag##_nsz, tag##_vsz,	\
+		(dst) = vf_ini_mk_line(VF_INI_KIND_##tag, tag##_nsz, tag##_vsz,	\
 		    tag##_pad, tag##_das, NULL);				\
 		if ((dst) != NULL)						\
 			__CPROVER_input(#tag "_raw",				\
@@ -634,7 +660,7 @@ vf_ini_mk_line(uint8_t kind, size_t nsz, size_t vsz, size_t pad, size_t das,
 		VF_NONDET(uint8_t, tag##_pad);					\
 		VF_NONDET(uint8_t, tag##_das);					\
 		VF_NONDET_BYTES(tag##_raw, VF_INI_RAW);				\
-		(dst) = vf_ini_mk_line(tag##_kind, tag##_nsz, tag##_vsz,	\
+		(dst) = vf_ini_mk_line(VF_INI_KIND_##tag, tag##_nsz, tag##_vsz,	\
 		    tag##_pad, tag##_das, tag##_raw.b);				\
 	} while (0)
 #endif
@@ -643,14 +669,20 @@ vf_ini_mk_line(uint8_t kind, size_t nsz, size_t vsz, size_t pad, size_t das,
  * VF_INI_MAXL + 1 entries of which `allocated` (count <= allocated) are claimed;
  * allocated == 0: no table yet (a fresh ini_create() store) */
 #ifndef VF_REPLAY
-#define VF_INI_REG(p, n)	(VF_INI_REQ(p) = (n))
+#define VF_INI_REG(p, n)	VF_INI_REQ_SET(p, n)
 #else
 #define VF_INI_REG(p, n)	((void)0)
+#endif
+#if defined(VF_INI_COUNT) && defined(VF_INI_ALLOCATED)
+#define VF_INI_FIX_SHAPE	ini_count = VF_INI_COUNT; ini_allocated = VF_INI_ALLOCATED
+#else
+#define VF_INI_FIX_SHAPE	(void)0
 #endif
 #define VF_INI_SYM_STORE(ini)							\
 	do {									\
 		VF_NONDET(uint8_t, ini_count);					\
 		VF_NONDET(uint8_t, ini_allocated);				\
+		VF_INI_FIX_SHAPE;						\
 		VF_ASSUME(ini_count <= VF_INI_MAXL);				\
 		VF_ASSUME(ini_count <= ini_allocated &&				\
 		    ini_allocated <= VF_INI_MAXL + 1);				\
